@@ -10,6 +10,8 @@ Definition SINGLE_READ_VIOLATIONS := Eval vm_compute in single_read_violations g
 Print SINGLE_READ_VIOLATIONS.
 Definition LOCK_REGION_VIOLATIONS := Eval vm_compute in map region_brief (region_violations lock_regions region_policy).
 Print LOCK_REGION_VIOLATIONS.
+Definition LOCK_ORDER_VIOLATIONS := Eval vm_compute in lock_order_violations lock_order.
+Print LOCK_ORDER_VIOLATIONS.
 Definition TABLE_SIZE := Eval vm_compute in (length accesses, length (filter (live whitelist) accesses), length getter_calls, length lock_order,
   (length lock_regions, length (filter (fun r => negb (lr_deferred r)) lock_regions), length (filter lr_recovered lock_regions))).
 Print TABLE_SIZE.
@@ -30,8 +32,10 @@ Proof. exact (race_free_of_discipline accesses whitelist C15_discipline). Qed.
 Theorem C15_single_read : single_read_ok getter_calls expected_reads premise_exempt = true.
 Proof. vm_compute. reflexivity. Qed.
 
-(* no lock is acquired (transitively) while already held: the rule managers cannot deadlock
-   among themselves *)
+(* no lock is acquired (transitively, through static calls) while it is already held - in
+   particular no recursive RLock, which deadlocks as soon as a writer waits in between: the rule
+   managers cannot deadlock among themselves.  Edges are taken at the call sites: (lock possibly
+   held by the caller, lock the callee may acquire itself or through its static callees). *)
 Theorem C15_lock_order : lock_order_ok lock_order = true.
 Proof. vm_compute. reflexivity. Qed.
 
